@@ -50,6 +50,7 @@ func checkC05(c *Ctx) (string, error) {
 		evalStringSlice(c, "R05.3", rp)
 		evalSliceCopy(c, "R05.3", rp)
 		checkUTF8(c, rp)
+		checkRuneCodec(c, rp)
 		evalStringFromInt(c, rp)
 		c.Config = ""
 	}
